@@ -55,6 +55,23 @@ HOSTILE = [
     ("({{a}} for {{a}} in {{b}})", "sorted({{b}})[::-1]", "g = (x for x in y)\ns = sum((x for x in y), 3)\nprint(max(v for v in values), min(values))\n", 0),
     ("({{a}} for {{a}} in {{b}})", "tuple({{b}})", "for item in items:\n    if item:\n        out.extend(i for i in item)\n", 0),
     ("({{a}} for {{a}} in {{b}})", "({{a}} for {{a}} in sorted({{b}}))", "s = sum(x for x in y)\nu = sum((x for x in y))\n", 0),
+    # replacements of several statements where the match does not start its own plainly indented line
+    ("y = {{v}}", "y = {{v}}\nz = 0", "def f():\n    if a:\n        y = g(1,\n    2)\n    return y\n", 0),
+    ("x = 1", "x = 3\nz = 4", "def f():\n    if a: x = 1\n    return x\n", 0),
+    ("x = 1", "x = 3\nz = 4", "for i in b: x = 1\nprint(x)\n", 0),
+    ("x = 1", "x = 3\nz = 4", "if a:\n    pass\nelse: x = 1\nprint(x)\n", 0),
+    ("x = 1", "x = 3\nz = 4", "y = 0; x = 1\nprint(x)\n", 0),
+    ("x = {{v}}", "x = {{v}}\ny = {{v}}", "if a:\n\tx = 2\n\tz = 3\n", 0),
+    # a string literal of several lines in the replacement, a wildcard spelled inside a literal of the source, a wildcard called like a field of the match
+    ("y = 1", 'y = """line1\nline2"""', "if a:\n    y = 1\n", 0),
+    ("y = 1", 'y = ("""line1\n  line2""", 2)', "def f():\n    if a:\n        y = 1\n    return y\n", 0),
+    ("f({{x}}, {{y}})", "g({{x}}, {{y}})", "f('{{y}}', 2)\n", 0),
+    ("f({{x}}, {{y}})", "g({{y}}, {{x}})", "r = f(2, \"{{x}} and {{y}}\")\n", 0),
+    ("foo({{root}})", "bar({{root}})", "foo(1)\n", 0),
+    ("{{root}} + 1", "{{root}} - 1", "y = foo(1) + 1\n", 0),
+    # a wildcard bound to a compound statement
+    ("for i in {{it}}:\n    {{s}}", "for i in iter({{it}}):\n    {{s}}", "for i in b:\n    if a:\n        foo(1)\n", 0),
+    ("for i in {{it}}:\n    {{s}}", "for i in iter({{it}}):\n    {{s}}", "for i in a:\n    f(i)\nfor i in b:\n    if i:\n        g(i)\n", 0),
 ]
 
 EXPR_REPLS = ["g({{A}})", "{{A}} * 2", "not {{A}}", "{{A}}.attr", "{{A}}()", "({{A}}, {{A}})", "{{A}} if cond else {{B}}",
